@@ -133,7 +133,8 @@ class Ctx:
 
     def case(self, s):
         o = {"tables": self.table, "ws": self.u["ws"]}
-        o.update(self.opts)
+        o.update({k: (getattr(v, "__name__", str(v)) if callable(v) else v)
+                  for k, v in self.opts.items()})
         return {"grammar": self.text, "parser": "glr", "options": o, "input": s,
                 "lexmap": self.u["lexmap"]}
 
